@@ -33,6 +33,9 @@ def _decls(kind):
         return dict(x=(0, 2)), dict(y=(-1, 1))
     if kind == 'neg':
         return dict(x=(-2, -1)), dict(y='bool')
+    if kind == 'const':
+        # as 'bool', plus a rigid constant k that the predicates may mention (verdict = validity for every k)
+        return dict(x='bool'), dict(y='bool')
     raise ValueError(kind)
 
 
@@ -42,6 +45,8 @@ def _aut(kind, tables=True):
     env, sys_ = _decls(kind)
     aut = trl.Automaton()
     aut.declare_variables(m=(0, 1), **env, **sys_)
+    if kind == 'const':
+        aut.declare_constants(k='bool')
     aut.varlist = dict(env=list(env), sys=list(sys_))
     aut.prime_varlists()
     return aut, list(env), list(sys_)
@@ -227,7 +232,9 @@ def verdict_instances(kind, qinit, plus_one, seed, n):
                  for k, vals in enumerate(cs) if (mask >> k) & 1]
         return aut.add_expr(' \\/ '.join(f'({t})' for t in terms)) if terms else aut.false
     shared = qinit in ('\\A \\A', '\\E \\E')
-    ei_ids = state if shared else env
+    rigid = ['k'] if kind == 'const' else []
+    ei_ids = (state if shared else env) + rigid
+    state = state + rigid          # identifiers the predicates SysInit and Win may mention
     n_ei, n_st = len(cells(ei_ids)), len(cells(state))
     exhaustive = kind == 'bool'
     if exhaustive:
@@ -300,7 +307,9 @@ def replay_verdict(c):
     state = env + sys_
     aut.qinit, aut.plus_one, aut.moore = qinit, plus_one, True
     shared = qinit in ('\\A \\A', '\\E \\E')
-    ei_ids = state if shared else env
+    rigid = ['k'] if kind == 'const' else []
+    ei_ids = (state if shared else env) + rigid
+    state = state + rigid
 
     def cells(ids):
         return list(itertools.product(*[family._values(aut, i) for i in ids]))
@@ -318,20 +327,22 @@ def replay_verdict(c):
         got = gr1.is_realizable(bdd(state, cmask), aut)
     TE, TS, TW = table(ei_ids, a), table(state, b), table(state, cmask)
     XS, YS = cells(env), cells(sys_)
+    KS = cells(rigid)            # [()] without a rigid constant
 
-    def form(x, y):
-        e = TE[x + y] if shared else TE[x]
-        if plus_one:
-            return TS[x + y] and ((not e) or TW[x + y])
-        return (not e) or (TS[x + y] and TW[x + y])
-    if qinit == '\\A \\A':
-        want = all((not TE[x + y]) or TW[x + y] for x in XS for y in YS)
-    elif qinit == '\\E \\E':
-        want = any(TS[x + y] and TW[x + y] for x in XS for y in YS)
-    elif qinit == '\\A \\E':
-        want = all(any(form(x, y) for y in YS) for x in XS)
-    else:
-        want = any(all(form(x, y) for x in XS) for y in YS)
+    def want_for(k):
+        def form(x, y):
+            e = TE[x + y + k] if shared else TE[x + k]
+            if plus_one:
+                return TS[x + y + k] and ((not e) or TW[x + y + k])
+            return (not e) or (TS[x + y + k] and TW[x + y + k])
+        if qinit == '\\A \\A':
+            return all((not TE[x + y + k]) or TW[x + y + k] for x in XS for y in YS)
+        if qinit == '\\E \\E':
+            return any(TS[x + y + k] and TW[x + y + k] for x in XS for y in YS)
+        if qinit == '\\A \\E':
+            return all(any(form(x, y) for y in YS) for x in XS)
+        return any(all(form(x, y) for x in XS) for y in YS)
+    want = all(want_for(k) for k in KS)      # validity: for every value of the rigid constant
     return bool(got) != want, f'is_realizable={got}, enumeration of the documented formula={want}'
 
 
@@ -438,7 +449,7 @@ def replay(payload):
 
 def run(tier, seed, t0, only=None):
     tasks = []
-    kinds = ['bool', 'int', 'neg']
+    kinds = ['bool', 'int', 'neg', 'const']
     for kind in kinds:
         for qinit in QINITS:
             for plus_one in (True, False):
